@@ -161,7 +161,7 @@ fn condition_of(c: &AiCase, i: usize) -> String {
     // the third file is the JavaScript one: its block comments can hold a two-line attribute value but no `*/`
     let js = b.file % 3 == 2;
     let base = if js { b.condition.trim().replace("*/", "* /") } else { b.condition.trim().to_string() };
-    if b.multiline_condition && js { format!("[{i}] first line\nsecond line {base}") } else { format!("[{i}] {base}") }
+    if b.multiline_condition && js { format!("⟦{i}⟧ first line\nsecond line {base}") } else { format!("⟦{i}⟧ {base}") }
 }
 
 fn expected_content(b: &AiBlock, raw: &str) -> String {
@@ -200,7 +200,7 @@ pub fn check(c: &AiCase, probe: &Probe) -> Verdict {
             let um = req.user_message().unwrap_or_default();
             // longest-index-first so that "[1]" does not match "[12]"
             for i in (0..conds.len()).rev() {
-                if um.contains(&format!("CONDITION:\n{}\n", conds[i])) {
+                if um.contains(&conds[i]) {
                     return Reply::Text(replies[i].clone());
                 }
             }
@@ -272,7 +272,8 @@ pub fn check(c: &AiCase, probe: &Probe) -> Verdict {
     for l in &laid {
         for (i, _, _, _, raw) in &l.blocks {
             let want_content = expected_content(&c.blocks[*i], raw);
-            let matching: Vec<&Request> = seen.iter().filter(|r| r.user_message().is_some_and(|m| m.contains(&format!("CONDITION:\n{}\n", conds[*i])))).collect();
+            // (only "carries the condition and the content verbatim" is required: the wording around them is free)
+            let matching: Vec<&Request> = seen.iter().filter(|r| r.user_message().is_some_and(|m| m.contains(&conds[*i]))).collect();
             if matching.len() != 1 {
                 return Verdict::Fail(show(&format!("{} requests carry the condition of block ai{i} verbatim (expected 1): {:?}", matching.len(), conds[*i]), &out));
             }
@@ -288,9 +289,22 @@ pub fn check(c: &AiCase, probe: &Probe) -> Verdict {
                 return Verdict::Fail(show(&format!("request for ai{i} names model {:?}", body.get("model")), &out));
             }
             let um = r.user_message().unwrap();
-            let after = um.split_once(&format!("CONDITION:\n{}\n", conds[*i])).map(|x| x.1).unwrap_or("");
-            if !after.ends_with(&want_content) || (want_content.is_empty() && !after.trim_end().ends_with(':')) {
-                return Verdict::Fail(show(&format!("request for ai{i} does not carry the block's content verbatim: expected the message to end with {want_content:?}, message is {um:?}"), &out));
+            let after = um.split_once(conds[*i].as_str()).map(|x| x.1).unwrap_or("");
+            // the content must be carried *as trimmed*: an occurrence that starts at a line start (or after ": ")
+            // and is followed by nothing, or by a line break and further text — not by left-over white space
+            let carried = if want_content.is_empty() {
+                true
+            } else {
+                after.match_indices(want_content.as_str()).any(|(p, m)| {
+                    let before = &after[..p];
+                    let tail = &after[p + m.len()..];
+                    let ok_before = before.is_empty() || before.ends_with('\n') || before.ends_with(": ");
+                    let ok_after = tail.is_empty() || (tail.starts_with('\n') && !tail.trim().is_empty());
+                    ok_before && ok_after
+                })
+            };
+            if !carried {
+                return Verdict::Fail(show(&format!("request for ai{i} does not carry the block's content verbatim: expected the message to carry {want_content:?} after the condition, message is {um:?}"), &out));
             }
         }
     }
